@@ -482,6 +482,7 @@ class StartStageHandler(
             stage.context["_join_fired"] = True
 
         # Now we have exclusive ownership - safe to do expensive planning
+        had_tasks_before_planning = bool(stage.tasks)
         try:
             self._plan_stage(stage)
         except Exception as e:
@@ -497,29 +498,53 @@ class StartStageHandler(
         # Collect messages to push BEFORE starting the transaction
         messages_to_push = self._collect_start_messages(stage, message)
 
-        # Atomic: store planned stage + push all start messages together
-        try:
-            with self.repository.transaction(self.queue) as txn:
-                txn.store_stage(stage)
+        # Atomic: store planned stage + push all start messages together.
+        # We own the claim, so the only possible concurrent writers are upstream
+        # completions recording join bookkeeping on this stage (a late branch of
+        # a first-of / N-of-M join finishing while the join starts). Losing that
+        # race must not be swallowed: the stage would stay RUNNING, claimed but
+        # never planned, and nothing would ever start its tasks. Adopt the other
+        # writer's version (and bookkeeping) and commit the plan again.
+        for attempt in range(5):
+            try:
+                with self.repository.transaction(self.queue) as txn:
+                    txn.store_stage(stage)
 
-                # Message deduplication
-                if message.message_id:
-                    txn.mark_message_processed(
-                        message_id=message.message_id,
-                        handler_type="StartStage",
-                        execution_id=message.execution_id,
+                    # Message deduplication
+                    if message.message_id:
+                        txn.mark_message_processed(
+                            message_id=message.message_id,
+                            handler_type="StartStage",
+                            execution_id=message.execution_id,
+                        )
+
+                    for msg in messages_to_push:
+                        txn.push_message(msg)
+                break
+            except ConcurrencyError:
+                if attempt == 4:
+                    raise
+                logger.debug(
+                    "Plan commit of claimed stage %s lost a version race, retrying on the fresh version",
+                    stage.name,
+                )
+                fresh = self.repository.retrieve_stage(stage.id)
+                if not had_tasks_before_planning and fresh.tasks:
+                    # Another worker took the stage over as a zombie (claimed, no
+                    # tasks yet) and committed its own plan: that plan stands.
+                    logger.debug(
+                        "Stage %s was planned by a concurrent handler, dropping this plan",
+                        stage.name,
                     )
-
-                for msg in messages_to_push:
-                    txn.push_message(msg)
-        except ConcurrencyError:
-            # This shouldn't happen since we already claimed the stage,
-            # but handle it gracefully just in case.
-            logger.warning(
-                "Unexpected ConcurrencyError after claiming stage %s",
-                stage.name,
-            )
-            return
+                    return
+                stage.version = fresh.version
+                for key in ("_completed_branches", "_activated_branches"):
+                    if key in fresh.context:
+                        stage.context[key] = fresh.context[key]
+                fresh_task_versions = {t.id: t.version for t in fresh.tasks}
+                for task in stage.tasks:
+                    if task.id in fresh_task_versions:
+                        task.version = fresh_task_versions[task.id]
 
         logger.info("Started stage %s (%s)", stage.name, stage.id)
 
